@@ -175,302 +175,6 @@ func c10Exercise(in []byte, chunkSeed int64, cur *c10Cur) (deepest int, known bo
 // corpus
 // ---------------------------------------------------------------------------
 
-type c10Input struct {
-	Kind  string
-	Bytes []byte
-	Chunk int64
-}
-
-type c10Base struct {
-	key, ver int16
-	payload  []byte // frame without size prefix
-	flexible bool
-	tagOff   int // offset of the header tag section (flexible only)
-	bodyOff  int
-}
-
-func c10Frame(payload []byte) []byte {
-	out := make([]byte, 4, 4+len(payload))
-	binary.BigEndian.PutUint32(out, uint32(len(payload)))
-	return append(out, payload...)
-}
-
-func c10FrameLen(l uint32, payload []byte) []byte {
-	out := make([]byte, 4, 4+len(payload))
-	binary.BigEndian.PutUint32(out, l)
-	return append(out, payload...)
-}
-
-func c10Uvarint(v uint64) []byte {
-	var tmp [binary.MaxVarintLen64]byte
-	return append([]byte(nil), tmp[:binary.PutUvarint(tmp[:], v)]...)
-}
-
-func c10Cat(parts ...[]byte) []byte {
-	var out []byte
-	for _, p := range parts {
-		out = append(out, p...)
-	}
-	return out
-}
-
-var c10OverlongVarints = [][]byte{
-	{0x80, 0x00},             // non-canonical 0
-	{0x81, 0x80, 0x80, 0x00}, // non-canonical 1
-	{0x80, 0x80, 0x80, 0x80, 0x80, 0x80, 0x80, 0x80, 0x80, 0x80, 0x01}, // 11 bytes: overflow
-	{0xff, 0xff, 0xff, 0xff, 0xff, 0xff, 0xff, 0xff, 0xff, 0x7f},       // 10 bytes, last > 1: overflow
-	{0xff, 0xff, 0xff, 0xff, 0xff, 0xff, 0xff, 0xff, 0xff, 0x01},       // 2^64-1
-	{0x80, 0x80, 0x80, 0x80, 0x80, 0x80, 0x80, 0x80, 0x80, 0x01},       // 2^63
-	{0x80}, // unterminated
-	{0xff, 0xff, 0xff, 0xff, 0xff, 0xff, 0xff, 0xff, 0xff, 0xff, 0xff, 0xff, 0xff, 0xff, 0xff, 0xff},
-}
-
-// c10TagSections builds tagged-field sections (count, then tag,size,data per field) that a hostile client can send.
-//
-// maxCount bounds the announced field count. The header's SkipTaggedFields stops at the first missing byte, so any
-// count is cheap there; the codec's body tag reader (kmsg internalReadTags) keeps looping `count` times after the
-// input is exhausted, so a 5-byte count of 2^31 in a BODY costs ~2^31 iterations (minutes under -race). That is a
-// slow request, not a crash; the corpus keeps body tag counts small on purpose and the parent has a stall watchdog.
-func c10TagSections(rem int, maxCount uint64) [][]byte {
-	var out [][]byte
-	sizes := []uint64{0, 1, 2, 127, 128, uint64(rem), uint64(rem + 1), 1<<31 - 1, 1 << 31, 1<<32 - 1, 1 << 32, 1 << 62, 1<<63 - 1, 1 << 63, 1<<63 + 1, 1<<64 - 2, 1<<64 - 1}
-	if rem > 0 {
-		sizes = append(sizes, uint64(rem-1))
-	}
-	for _, s := range sizes {
-		out = append(out, c10Cat(c10Uvarint(1), c10Uvarint(0), c10Uvarint(s)))
-		out = append(out, c10Cat(c10Uvarint(2), c10Uvarint(0), c10Uvarint(1), []byte{0xaa}, c10Uvarint(7), c10Uvarint(s)))
-	}
-	for _, c := range []uint64{2, 127, 128, 1 << 31, 1 << 32, 1 << 63, 1<<64 - 1} {
-		if c > maxCount {
-			continue
-		}
-		out = append(out, c10Uvarint(c))
-		out = append(out, c10Cat(c10Uvarint(c), c10Uvarint(0), c10Uvarint(0), c10Uvarint(1), c10Uvarint(0)))
-	}
-	out = append(out, c10Cat(c10Uvarint(1), c10Uvarint(1<<64-1), c10Uvarint(0)))
-	for _, ol := range c10OverlongVarints {
-		if maxCount == math.MaxUint64 {
-			out = append(out, ol) // as count
-		}
-		out = append(out, c10Cat(c10Uvarint(1), ol, c10Uvarint(0)))                  // as tag
-		out = append(out, c10Cat(c10Uvarint(1), c10Uvarint(0), ol))                  // as size
-		out = append(out, c10Cat(c10Uvarint(1), c10Uvarint(0), ol, []byte{1, 2, 3})) // as size, data follows
-	}
-	return out
-}
-
-func c10Bases(rng *rand.Rand, bodiesHandled, bodiesOther int) []c10Base {
-	handled := map[int16]bool{}
-	for _, k := range verifkreq.HandledKeys {
-		handled[k] = true
-	}
-	var bases []c10Base
-	for key := int16(0); key <= kmsg.MaxKey; key++ {
-		probe := kmsg.RequestForKey(key)
-		if probe == nil {
-			continue
-		}
-		nb := bodiesOther
-		if handled[key] {
-			nb = bodiesHandled
-		}
-		for ver := int16(0); ver <= probe.MaxVersion()+1; ver++ {
-			if key == 7 && ver == 0 { // ControlledShutdown v0 has no client id in its header (not served by KafScale)
-				continue
-			}
-			for b := 0; b < nb; b++ {
-				req := kmsg.RequestForKey(key)
-				req.SetVersion(ver)
-				verifkreq.Fill(rng, req, verifkreq.Opts{MaxArray: 2, Tags: true, MaxString: 16})
-				cid := verifkreq.ClientID(rng)
-				if cid != nil && len(*cid) > 64 {
-					s := (*cid)[:64]
-					cid = &s
-				}
-				wire := verifkreq.Encode(req, int32(rng.Uint32()), cid)
-				base := c10Base{key: key, ver: ver, payload: wire[4:], flexible: req.IsFlexible(), bodyOff: verifkreq.BodyOffset(req, cid)}
-				if base.flexible {
-					base.tagOff = base.bodyOff - 1
-				}
-				bases = append(bases, base)
-			}
-		}
-	}
-	return bases
-}
-
-// c10Corpus is a pure function of (seed, tier): the fixed case list of the crash leg.
-func c10Corpus(r *verifkit.Run) []c10Input {
-	rng := r.Rand(0)
-	var out []c10Input
-	add := func(kind string, b []byte) {
-		out = append(out, c10Input{Kind: kind, Bytes: b, Chunk: rng.Int63()})
-	}
-	bases := c10Bases(rng, r.N(2, 6), r.N(1, 2))
-	var flex, handledFlex []int
-	handled := map[int16]bool{}
-	for _, k := range verifkreq.HandledKeys {
-		handled[k] = true
-	}
-	for i, b := range bases {
-		if b.flexible {
-			flex = append(flex, i)
-			if handled[b.key] {
-				handledFlex = append(handledFlex, i)
-			}
-		}
-	}
-	// A. valid encodings
-	for _, b := range bases {
-		add("valid", c10Frame(b.payload))
-	}
-	// M3. header tag sections on flexible headers: every section on a PRNG subset of bases, and one PRNG section on every flexible base
-	nfull := r.N(12, 120)
-	for i := 0; i < nfull && len(handledFlex) > 0; i++ {
-		b := bases[handledFlex[rng.Intn(len(handledFlex))]]
-		rem := len(b.payload) - b.tagOff - 1
-		for _, sec := range c10TagSections(rem, math.MaxUint64) {
-			p := c10Cat(b.payload[:b.tagOff], sec, b.payload[b.tagOff+1:])
-			add("hdr_tags", c10Frame(p))
-			if rng.Intn(4) == 0 {
-				add("hdr_tags_nobody", c10Frame(c10Cat(b.payload[:b.tagOff], sec)))
-			}
-		}
-	}
-	for _, i := range flex {
-		b := bases[i]
-		secs := c10TagSections(len(b.payload)-b.tagOff-1, math.MaxUint64)
-		bodySecs := c10TagSections(len(b.payload)-b.tagOff-1, 128)
-		for k := 0; k < r.N(2, 8); k++ {
-			sec := secs[rng.Intn(len(secs))]
-			add("hdr_tags", c10Frame(c10Cat(b.payload[:b.tagOff], sec, b.payload[b.tagOff+1:])))
-		}
-		// body: the last byte of a flexible body is its (empty) tag section
-		for k := 0; k < r.N(1, 4); k++ {
-			sec := bodySecs[rng.Intn(len(bodySecs))]
-			add("body_tags", c10Frame(c10Cat(b.payload[:len(b.payload)-1], sec)))
-		}
-	}
-	// M1/M2/M6/M7 on every base (PRNG choice of the variant), M4 random field overwrites
-	lenVariants := func(n int) []uint32 {
-		return []uint32{0, 1, 3, 7, 8, 9, 10, 11, uint32(n - 1), uint32(n + 1), uint32(n + 1000), 0xffffffff, 0x80000000, 0xfffffffe, 0xffff0000}
-	}
-	perBase := r.N(6, 40)
-	for _, b := range bases {
-		n := len(b.payload)
-		lv := lenVariants(n)
-		add("frame_len", c10FrameLen(lv[rng.Intn(len(lv))], b.payload))
-		cidv := []uint16{0xffff, 0xfffe, 0x8000, 0x7fff, 0, uint16(n), uint16(n - 9), 1}
-		p := append([]byte(nil), b.payload...)
-		binary.BigEndian.PutUint16(p[8:], cidv[rng.Intn(len(cidv))])
-		add("clientid_len", c10Frame(p))
-		// stream cut short of what the size prefix announces
-		full := c10Frame(b.payload)
-		add("stream_cut", full[:rng.Intn(len(full))])
-		// version / key swaps keeping the body
-		p = append([]byte(nil), b.payload...)
-		vv := []int16{-1, 0, 1, b.ver - 1, b.ver + 1, 32767, -32768, int16(rng.Intn(20))}
-		binary.BigEndian.PutUint16(p[2:], uint16(vv[rng.Intn(len(vv))]))
-		add("version_swap", c10Frame(p))
-		p = append([]byte(nil), b.payload...)
-		kk := []int16{-1, 32767, 1000, int16(rng.Intn(int(kmsg.MaxKey) + 3)), verifkreq.HandledKeys[rng.Intn(len(verifkreq.HandledKeys))]}
-		binary.BigEndian.PutUint16(p[0:], uint16(kk[rng.Intn(len(kk))]))
-		add("key_swap", c10Frame(p))
-		for k := 0; k < perBase; k++ {
-			p = append([]byte(nil), b.payload...)
-			for m := 0; m <= rng.Intn(3); m++ {
-				pos := rng.Intn(len(p))
-				switch rng.Intn(6) {
-				case 0: // int32 length/count field
-					if pos+4 <= len(p) {
-						binary.BigEndian.PutUint32(p[pos:], []uint32{0xffffffff, 0x7fffffff, 0x80000000, 0, 0x00ffffff, uint32(len(p))}[rng.Intn(6)])
-					}
-				case 1: // int16 length
-					if pos+2 <= len(p) {
-						binary.BigEndian.PutUint16(p[pos:], []uint16{0xffff, 0x7fff, 0x8000, 0, uint16(len(p))}[rng.Intn(5)])
-					}
-				case 2:
-					p[pos] = []byte{0xff, 0x80, 0x00, 0x01, 0x7f, 0x81}[rng.Intn(6)]
-				case 3: // splice an over-long / huge varint in
-					ol := c10OverlongVarints[rng.Intn(len(c10OverlongVarints))]
-					p = c10Cat(p[:pos], ol, p[pos:])
-				case 4: // drop a byte
-					p = append(p[:pos:pos], p[pos+1:]...)
-					if len(p) == 0 {
-						p = []byte{0}
-					}
-				case 5:
-					p[pos] ^= byte(1 << uint(rng.Intn(8)))
-				}
-			}
-			add("field_mut", c10Frame(p))
-		}
-	}
-	// M5. truncation of the payload at every byte, size prefix consistent, on a PRNG subset of bases
-	ntr := r.N(120, 1500)
-	for i := 0; i < ntr; i++ {
-		b := bases[rng.Intn(len(bases))]
-		if i%2 == 0 && len(handledFlex) > 0 {
-			b = bases[handledFlex[rng.Intn(len(handledFlex))]]
-		}
-		for cut := 0; cut < len(b.payload); cut++ {
-			add("truncate_every_byte", c10Frame(b.payload[:cut]))
-		}
-	}
-	// M8. several frames on one stream
-	for i := 0; i < r.N(300, 3000); i++ {
-		a, b := bases[rng.Intn(len(bases))], bases[rng.Intn(len(bases))]
-		s := c10Cat(c10Frame(a.payload), c10Frame(b.payload))
-		if rng.Intn(2) == 0 && b.flexible {
-			secs := c10TagSections(len(b.payload)-b.tagOff-1, math.MaxUint64)
-			s = c10Cat(c10Frame(a.payload), c10Frame(c10Cat(b.payload[:b.tagOff], secs[rng.Intn(len(secs))], b.payload[b.tagOff+1:])))
-		}
-		if rng.Intn(3) == 0 {
-			s = s[:len(s)-rng.Intn(len(b.payload)+1)]
-		}
-		add("multi_frame", s)
-	}
-	// honest but huge size prefixes (the up-front make([]byte, length)); few, because each costs an allocation
-	// (zeroing + race shadow of a 2 GiB allocation costs up to a minute on a loaded box, so the quick tier stops at 128 MiB)
-	hugeLens := []uint32{0x08000000, 0x04000001}
-	if r.Thorough() {
-		hugeLens = append(hugeLens, 0x7fffffff, 0x40000000, 0x10000000)
-	}
-	for _, l := range hugeLens {
-		b := bases[rng.Intn(len(bases))]
-		add("huge_len", c10FrameLen(l, b.payload))
-	}
-	// N. uniform noise: raw, with a consistent size prefix, behind a valid flexible header prefix
-	for i := 0; i < r.N(6000, 300000); i++ {
-		n := rng.Intn(96)
-		if rng.Intn(10) == 0 {
-			n = rng.Intn(2000)
-		}
-		b := make([]byte, n)
-		rng.Read(b)
-		switch rng.Intn(4) {
-		case 0:
-			if n >= 4 { // keep the announced size small so the noise is a frame, not a 2 GiB announcement
-				binary.BigEndian.PutUint32(b, uint32(rng.Intn(n+8)))
-			}
-			add("noise_raw", b)
-		case 1:
-			add("noise_framed", c10Frame(b))
-		case 2:
-			hb := bases[handledFlex[rng.Intn(len(handledFlex))]]
-			add("noise_after_header", c10Frame(c10Cat(hb.payload[:hb.tagOff], b)))
-		case 3:
-			if n >= 4 {
-				binary.BigEndian.PutUint16(b[0:], uint16(verifkreq.HandledKeys[rng.Intn(len(verifkreq.HandledKeys))]))
-				binary.BigEndian.PutUint16(b[2:], uint16(rng.Intn(18)))
-			}
-			add("noise_known_key", c10Frame(b))
-		}
-	}
-	return out
-}
-
 // ---------------------------------------------------------------------------
 // classification of a panic witness (narrow and deterministic)
 // ---------------------------------------------------------------------------
@@ -479,7 +183,7 @@ func c10Corpus(r *verifkit.Run) []c10Input {
 // header decides whether the first thing that can go wrong is a tagged field whose size does not fit
 // a non-negative int. Any other panic gets a class made of the innermost pkg/protocol frame and the panic kind.
 func c10Classify(payload []byte, panicMsg, stack string) string {
-	if strings.Contains(stack, "SkipTaggedFields") && c10HeaderTagSizeOverflows(payload) {
+	if strings.Contains(stack, "SkipTaggedFields") && verifkreq.HeaderTagSizeOverflows(payload) {
 		return "tagged_field_size_overflow"
 	}
 	fn := "unknown"
@@ -517,62 +221,6 @@ func c10Classify(payload []byte, panicMsg, stack string) string {
 	return "panic:" + fn + ":" + kind
 }
 
-func c10HeaderTagSizeOverflows(p []byte) bool {
-	if len(p) < 10 {
-		return false
-	}
-	key := int16(binary.BigEndian.Uint16(p[0:]))
-	ver := int16(binary.BigEndian.Uint16(p[2:]))
-	pos := 8
-	l := int16(binary.BigEndian.Uint16(p[pos:]))
-	pos += 2
-	if l >= 0 {
-		if pos+int(l) > len(p) {
-			return false
-		}
-		pos += int(l)
-	} else if l != -1 {
-		return false
-	}
-	req := kmsg.RequestForKey(key)
-	if req == nil {
-		return false
-	}
-	req.SetVersion(ver)
-	if !req.IsFlexible() {
-		return false
-	}
-	uv := func() (uint64, bool) {
-		v, n := binary.Uvarint(p[pos:])
-		if n <= 0 {
-			return 0, false
-		}
-		pos += n
-		return v, true
-	}
-	count, ok := uv()
-	if !ok {
-		return false
-	}
-	for i := uint64(0); i < count; i++ {
-		if _, ok := uv(); !ok {
-			return false
-		}
-		size, ok := uv()
-		if !ok {
-			return false
-		}
-		if size > math.MaxInt64 {
-			return true
-		}
-		if size > uint64(len(p)-pos) {
-			return false
-		}
-		pos += int(size)
-	}
-	return false
-}
-
 // ---------------------------------------------------------------------------
 // crashbox: child
 // ---------------------------------------------------------------------------
@@ -592,7 +240,7 @@ type c10ChildPanic struct {
 //   progress: 4-byte index BEFORE each call        stages: 1 byte AFTER each call (stage | 0x80 if key known)
 //   events:   JSON lines (panic / problem / huge allocation)   done: written last
 
-func c10WriteInputs(path string, ins []c10Input) error {
+func c10WriteInputs(path string, ins []verifkreq.Input) error {
 	f, err := os.Create(path)
 	if err != nil {
 		return err
@@ -611,12 +259,12 @@ func c10WriteInputs(path string, ins []c10Input) error {
 	return f.Close()
 }
 
-func c10ReadInputs(path string) ([]c10Input, error) {
+func c10ReadInputs(path string) ([]verifkreq.Input, error) {
 	b, err := os.ReadFile(path)
 	if err != nil {
 		return nil, err
 	}
-	var out []c10Input
+	var out []verifkreq.Input
 	for len(b) > 0 {
 		if len(b) < 12 {
 			return nil, fmt.Errorf("short input file")
@@ -624,7 +272,7 @@ func c10ReadInputs(path string) ([]c10Input, error) {
 		ch := int64(binary.BigEndian.Uint64(b))
 		n := int(binary.BigEndian.Uint32(b[8:]))
 		b = b[12:]
-		out = append(out, c10Input{Bytes: b[:n:n], Chunk: ch})
+		out = append(out, verifkreq.Input{Bytes: b[:n:n], Chunk: ch})
 		b = b[n:]
 	}
 	return out, nil
@@ -668,7 +316,7 @@ func TestVerifC10Child(t *testing.T) {
 	// CPU budget per input (process CPU time, so machine load does not matter): pure parsing of a <=8 KiB stream
 	// needs microseconds; the codec's tag loop on a hostile count needs minutes. Exceeding the budget is recorded
 	// as "slow" and the child exits so that the parent restarts after that input. Slowness is never a verdict.
-	const cpuBudget = 400 * time.Millisecond
+	const cpuBudget = 250 * time.Millisecond
 	cpuNow := func() time.Duration {
 		var ru syscall.Rusage
 		if syscall.Getrusage(syscall.RUSAGE_SELF, &ru) != nil {
@@ -696,8 +344,8 @@ func TestVerifC10Child(t *testing.T) {
 	var idx [4]byte
 	for i := start; i < len(ins); i++ {
 		binary.BigEndian.PutUint32(idx[:], uint32(i))
-		progress.Write(idx[:])                     // before the call: a death is attributed to this index
-		if c10DeclaredLen(ins[i].Bytes) < 64<<20 { // huge announced sizes cost CPU in the allocator (and in the race runtime); they have their own record
+		progress.Write(idx[:])                            // before the call: a death is attributed to this index
+		if verifkreq.DeclaredLen(ins[i].Bytes) < 64<<20 { // huge announced sizes cost CPU in the allocator (and in the race runtime); they have their own record
 			curStart.Store(int64(cpuNow()))
 			curIdx.Store(int64(i))
 		}
@@ -765,23 +413,16 @@ func c10TrimStack(s string) string {
 // crashbox: parent
 // ---------------------------------------------------------------------------
 
-func c10DeclaredLen(in []byte) int64 {
-	if len(in) < 4 {
-		return 0
-	}
-	return int64(int32(binary.BigEndian.Uint32(in)))
-}
-
 func TestVerifC10Crash(t *testing.T) {
 	r := verifkit.Start(t, "C10", "crash")
 	defer r.Finish("crashbox: a PRNG-determined corpus (valid franz-go encodings of every kmsg request key/version; structure-aware mutations: frame size 0/-1/2^31-1/off-by-one, client-id length, header and body tagged-field sections with counts/sizes 0..2^64-1 and over-long varints, int32/int16 overwrites, truncation at every byte, version/key swaps, several frames per stream, uniform noise) is fed by child processes through ReadFrame (reader returning 1..n bytes per call) -> ParseRequestHeader -> ParseRequest -> ParseRequestBody, as broker.Server.handleConnection does; each call must return a value or an error: a recovered panic or a child death (attributed to the index logged before the call) is a violation; also the three entry points must agree with each other on the same bytes. non-trivial = the frame was read and carried an API key known to the codec, so the header/body parser ran",
 		"a large up-front allocation for an honestly announced frame size is recorded (counter huge_alloc_calls), not judged: the statement says crash",
 		"a child death while processing an input whose size prefix announces >= 128 MiB is attributed to that allocation and recorded as an observation",
 		"ControlledShutdown v0 (header without client id, not served by KafScale) is excluded from the valid encodings",
-		"budget only: an input whose decode uses more than 400 ms of process CPU time is recorded as slow (stage_slow_not_judged) and the child restarts after it; slowness is not judged. Cause seen: the codec's body tag reader (kmsg internalReadTags) loops `count` times even after the input is exhausted, so a 5-byte count in a flexible body costs up to 2^32 iterations; the corpus keeps deliberate body tag counts <= 128, the rest arise from reinterpreted bytes",
+		"budget only: an input whose decode uses more than 250 ms of process CPU time is recorded as slow (stage_slow_not_judged) and the child restarts after it; slowness is not judged. Cause seen: the codec's body tag reader (kmsg internalReadTags) loops `count` times even after the input is exhausted, so a 5-byte count in a flexible body costs up to 2^32 iterations; the corpus keeps deliberate body tag counts <= 128, the rest arise from reinterpreted bytes",
 		"backstop: a child that logs no new index for 180 s of wall time is killed and the input skipped (counter stalled_inputs_skipped)")
 
-	corpus := c10Corpus(r)
+	corpus := verifkreq.Corpus(r.Rand(0), verifkreq.CorpusSizes{Thorough: r.Thorough()})
 	dir := os.Getenv("VERIF_SCRATCH")
 	if dir == "" {
 		dir = t.TempDir()
@@ -802,7 +443,7 @@ func TestVerifC10Crash(t *testing.T) {
 		slowSamples []map[string]any
 		err         error
 	}
-	shards := make([][]c10Input, workers)
+	shards := make([][]verifkreq.Input, workers)
 	index := make([][]int, workers)
 	for i, in := range corpus {
 		w := i % workers
@@ -910,7 +551,7 @@ func TestVerifC10Crash(t *testing.T) {
 				}
 				if stalled.Load() {
 					o.stalls = append(o.stalls, rec)
-				} else if c10DeclaredLen(shards[w][last].Bytes) >= 128<<20 {
+				} else if verifkreq.DeclaredLen(shards[w][last].Bytes) >= 128<<20 {
 					o.obs = append(o.obs, rec)
 				} else {
 					o.deaths = append(o.deaths, rec)
@@ -949,7 +590,7 @@ func TestVerifC10Crash(t *testing.T) {
 				r.Violation("inconsistent_result", e.Problem, map[string]any{"input_hex": fmt.Sprintf("%x", in.Bytes), "kind": in.Kind, "chunk_seed": in.Chunk, "corpus_index": index[w][e.Index]})
 			case e.Alloc != 0:
 				r.Count("huge_alloc_calls", 1)
-				r.Note(fmt.Sprintf("huge_alloc_input_%d", index[w][e.Index]), map[string]any{"announced_size": c10DeclaredLen(in.Bytes), "bytes_allocated": e.Alloc, "bytes_sent": len(in.Bytes)})
+				r.Note(fmt.Sprintf("huge_alloc_input_%d", index[w][e.Index]), map[string]any{"announced_size": verifkreq.DeclaredLen(in.Bytes), "bytes_allocated": e.Alloc, "bytes_sent": len(in.Bytes)})
 			default:
 				class := c10Classify(e.Payload, e.Msg, e.Stack)
 				r.Count("panics", 1)
